@@ -345,6 +345,8 @@ struct Adversary {
 J gen_sessions(uint64_t seed, const J &ov)
 {
 	Rng r(seed, "sessions");
+	std::string focus = ov.gets("focus");
+	bool ffrag = focus == "fragsize";
 	J plan = J::obj(), cfg = J::obj(), ops = J::arr();
 	plan.set("scenario", "sessions"); plan.set("seed", (long long)seed);
 	std::string dom = gen_domain(r, (int)r.range(5, 30));
@@ -362,7 +364,9 @@ J gen_sessions(uint64_t seed, const J &ov)
 	cfg.set("no_check_ip", r.chance(0.15));
 	cfg.set("srv_v6", r.chance(0.3));
 	cfg.set("keep_running", true);
+	if (!focus.empty()) cfg.set("focus", focus);
 	double T = 90 + r.uniform() * 150;
+	if (ffrag) T = 30 + r.uniform() * 60;
 	cfg.set("tmax_s", (int)T);
 	cfg.set("max_events", 3000000);
 	int cap = std::min(16, (int)std::min<int64_t>(1 << 20, ((int64_t)1 << (32 - bits)) - 3));
@@ -374,6 +378,7 @@ J gen_sessions(uint64_t seed, const J &ov)
 	// legitimate model clients
 	J models = J::arr();
 	int nm = (int)(r.chance(0.3) ? r.range(cap - 1, cap + 2) : r.range(1, 6));
+	if (ffrag) nm = (int)r.range(1, 3);
 	if (nm < 1) nm = 1;
 	if (nm > 18) nm = 18;
 	static const char *qts[] = {"NULL", "TXT", "CNAME", "MX", "SRV", "A", "PRIVATE"};
@@ -384,9 +389,23 @@ J gen_sessions(uint64_t seed, const J &ov)
 		m.set("auto", true); m.set("start_us", (long long)((0.1 + r.uniform() * 25) * 1e6));
 		m.set("ping_period", 0.5 + r.uniform() * 6);
 		m.set("qtype", qts[r.range(0, 6)]);
+		if (ffrag) {
+			// C15: F over the whole legal range (and none at all: the conservative default must then hold)
+			static const int special[] = {2, 3, 4, 5, 7, 8, 9, 15, 16, 17, 31, 32, 33, 63, 64, 65, 99, 100, 101, 127, 128, 129, 255, 256, 257, 511, 512, 513, 1023, 1024, 1025, 1200, 2047, 2048, 4093, 4094, 4095, 4096, 4097, 8000, 16384, 65535};
+			switch (r.range(0, 5)) {
+			case 0: break;
+			case 1: m.set("fragsize", (int)r.range(2, 30)); break;
+			case 2: m.set("fragsize", (int)r.range(30, 300)); break;
+			case 3: m.set("fragsize", (int)r.range(300, 5000)); break;
+			default: m.set("fragsize", special[r.range(0, 41)]);
+			}
+			m.set("ping_period", 0.05 + r.uniform() * 0.6);
+			static const char *des[] = {"", "", "t", "s", "u", "v", "r"};
+			m.set("downenc", des[r.range(0, 6)]);
+		} else
 		if (r.chance(0.5)) m.set("fragsize", (int)r.range(20, 200));
 		m.set("lazy", r.chance(0.3));
-		if (r.chance(0.4)) m.set("auto_until_s", 5 + r.uniform() * (T - 70));   // goes silent -> expires after 60 s
+		if (!ffrag && r.chance(0.4)) m.set("auto_until_s", 5 + r.uniform() * (T - 70));   // goes silent -> expires after 60 s
 		m.set("lat_up_us", (long long)r.pick_latency()); m.set("lat_dn_us", (long long)r.pick_latency());
 		models.push(m);
 	}
@@ -407,6 +426,7 @@ J gen_sessions(uint64_t seed, const J &ov)
 	for (int i = 0; i < npk; i++) {
 		J op = J::obj(); op.set("ref", "abs"); op.set("t", when()); op.set("op", "tun"); op.set("at", "srv"); op.set("ser", (long long)++ser);
 		op.set("len", (int)r.range(40, 400)); op.set("body", "rnd"); op.set("src", "ext");
+		if (ffrag) { static const char *bodies[] = {"rnd", "rnd", "rnd", "text", "zero"}; op.set("body", bodies[r.range(0, 4)]); op.set("len", (int)(r.chance(0.25) ? r.range(1500, 9000) : r.chance(0.5) ? r.range(300, 1500) : r.range(40, 300))); }
 		int k = (int)r.range(0, 9);
 		if (k <= 6) op.set("dst", "m" + std::to_string(r.range(0, nm - 1)));
 		else if (k == 7 && nreal) op.set("dst", "c" + std::to_string(r.range(0, nreal - 1)));
@@ -425,7 +445,20 @@ J gen_sessions(uint64_t seed, const J &ov)
 	// adversary: own handshake attempts, commands with own and foreign userids, raw frames
 	static const char *acts[] = {"v", "l", "p", "n", "i", "s", "o", "r", "rawlogin", "rawping", "rawdata", "pkt"};
 	static const char *lmodes[] = {"bad", "zero", "off_by_one", "short", "good"};
-	int nadv = (int)r.range(20, 200);
+	if (ffrag) {
+		// fragment size changed in mid-session, including refused values
+		int nch = (int)r.range(0, 6);
+		for (int i = 0; i < nch; i++) {
+			J op = J::obj(); op.set("ref", "abs"); op.set("t", when()); op.set("op", "mc"); op.set("who", "m" + std::to_string(r.range(0, nm - 1))); op.set("act", "n");
+			op.set("f", (int)(r.chance(0.25) ? r.range(0, 1) : r.chance(0.5) ? r.range(2, 200) : r.range(200, 65535)));
+			ops.push(op);
+		}
+		J f = J::obj(); f.set("ref", "abs"); f.set("t0_us", (long long)(5e6)); f.set("t1_us", (long long)(T * 1e6));
+		f.set("p_drop", r.chance(0.6) ? r.uniform() * 0.25 : 0.0); f.set("p_dup", r.chance(0.4) ? r.uniform() * 0.2 : 0.0);
+		f.set("p_delay", r.chance(0.3) ? r.uniform() * 0.2 : 0.0); f.set("max_delay_us", (long long)r.range(1000, 1500000));
+		cfg.set("faults", f);
+	}
+	int nadv = ffrag ? (int)r.range(0, 8) : (int)r.range(20, 200);
 	for (int i = 0; i < nadv; i++) {
 		J op = J::obj(); op.set("ref", "abs"); op.set("t", when()); op.set("op", "mc"); op.set("who", "a" + std::to_string(r.range(0, na - 1)));
 		std::string act = acts[r.range(0, 11)];
@@ -441,7 +474,7 @@ J gen_sessions(uint64_t seed, const J &ov)
 		ops.push(op);
 	}
 	// spoofers: a legitimate-looking request naming a victim's slot, sent from a foreign address (same or other family)
-	int nsp = (int)r.range(10, 80);
+	int nsp = ffrag ? 0 : (int)r.range(10, 80);
 	for (int i = 0; i < nsp; i++) {
 		J op = J::obj(); op.set("ref", "abs"); op.set("t", when()); op.set("op", "mc"); op.set("who", "a0");
 		static const char *sacts[] = {"p", "l", "n", "i", "s", "o", "pkt"};
@@ -455,7 +488,7 @@ J gen_sessions(uint64_t seed, const J &ov)
 	}
 	// wire-captured replays from a foreign address
 	static const char *kinds[] = {"replay_login", "replay_old_login", "replay_data", "replay_ping", "replay_rawlogin", "raw_with_dns_hash"};
-	int nrp = (int)r.range(5, 40);
+	int nrp = ffrag ? 0 : (int)r.range(5, 40);
 	for (int i = 0; i < nrp; i++) {
 		J op = J::obj(); op.set("ref", "abs"); op.set("t", when()); op.set("op", "adv"); op.set("kind", kinds[r.range(0, 5)]);
 		op.set("from", "atk" + std::to_string(r.range(0, 1))); op.set("from_ip", "10.9.2." + std::to_string(r.range(1, 2)));
@@ -463,7 +496,7 @@ J gen_sessions(uint64_t seed, const J &ov)
 		ops.push(op);
 	}
 	// generated hostile commands and raw frames (no authorisation can come from them)
-	int nh = (int)r.range(10, 100);
+	int nh = ffrag ? 0 : (int)r.range(10, 100);
 	for (int i = 0; i < nh; i++) {
 		J op = J::obj(); op.set("ref", "abs"); op.set("t", when()); op.set("op", "dgram"); op.set("from", "atk2"); op.set("from_ip", "10.9.2.3"); op.set("sport", (int)r.range(1024, 65535)); op.set("to", "srv");
 		op.set("hex", hexs(r.chance(0.7) ? hostile_query_command(r, dom, cap) : hostile_raw_frame(r)));
@@ -494,6 +527,7 @@ World *build_sessions(const J &plan)
 	SessionsModel *sm = new SessionsModel(w);
 	w->add(sm);
 	w->add(mk_c14_ledger(w, false));
+	w->add(mk_c15_fragsize(w));
 	w->add(mk_probes(w));
 	Adversary *adv = new Adversary{w, sm};
 	w->op_hook = [adv](const J &op) { if (op.gets("op") == "adv") { adv->op(op); return true; } return false; };
@@ -501,7 +535,8 @@ World *build_sessions(const J &plan)
 	w->sig = "sessions|/" + std::to_string(w->tun_bits) + (w->cfg.getb("no_check_ip") ? "|-c" : "") + "|m" + std::to_string(w->cfg["models"].a.size()) + "|c" + std::to_string(w->cfg["clients"].a.size());
 	World *ww = w;
 	w->result_hooks.push_back([ww](J &r) {
-		r.set("nontriv", ww->probes["c03.login_ok"] >= 1 && ww->probes["c03.unauthorised_steps"] >= 5);
+		if (ww->plan["cfg"].gets("focus") == "fragsize") r.set("nontriv", ww->probes["c03.login_ok"] >= 1 && ww->probes["c15.multifrag"] >= 1);
+		else r.set("nontriv", ww->probes["c03.login_ok"] >= 1 && ww->probes["c03.unauthorised_steps"] >= 5);
 	});
 	return w;
 }
